@@ -58,6 +58,15 @@ class XslGen:
             return P(ch(T_ANY, self.r.choice([num(1), fn("last"), P(at(T_ANY))])))
         return bin_("|", P(ch(t())), P(at(T_ANY)))
 
+    @staticmethod
+    def stays_below(e):
+        """the selected nodes are descendants-or-self of the context node (a relative path over downward axes, or a union of such)"""
+        if e.get("op") == "bin" and e["o"] == "|":
+            return XslGen.stays_below(e["a"]) and XslGen.stays_below(e["b"])
+        if e.get("op") != "path" or e["abs"] or e["start"] != NONE:
+            return False
+        return all(st["axis"] in ("child", "descendant", "descendant-or-self", "self", "attribute") for st in e["steps"])
+
     # ------------------------------------------------------------------ instructions
     def sorts(self):
         out = []
@@ -96,7 +105,7 @@ class XslGen:
                 out.append({"i": "attribute", "name": [{"lit": True, "s": cps(self.r.choice(["p", "q", "x"]))}],
                             "body": self.body(scope, 0, allow_attr=False, text_only=True) if self.r.random() < 0.6 else [{"i": "value-of", "sel": self.expr(scope, "any", d=1)}]})
         n = self.r.choice([1, 1, 2, 2, 3]) if d > 0 else self.r.choice([0, 1, 1])
-        if self.named and not out and not text_only and self.r.random() < 0.12:
+        if self.named and not out and not text_only and getattr(self, "free", 0) == 0 and self.r.random() < 0.12:
             # a call-template as the only child of its parent (Xalan runs such a callee "directly")
             return [self.call_template(scope, allow_params=self.r.random() < 0.4)]
         for _ in range(n):
@@ -134,7 +143,19 @@ class XslGen:
             whens = [{"test": self.expr(scope, "any"), "body": self.body(scope, d - 1, allow_attr=False)} for _ in range(self.r.choice([1, 2]))]
             return {"i": "choose", "whens": whens, "otherwise": self.body(scope, d - 1, allow_attr=False) if self.r.random() < 0.6 else []}
         if r < 0.7:
-            return {"i": "for-each", "sel": self.expr(scope, "ns", d=self.r.choice([0, 1])), "sorts": self.sorts(), "body": self.body(scope, d - 1, allow_attr=False)}
+            # Termination by construction: every template application moves to a strict descendant of the node the calling template
+            # was applied to.  Inside a for-each whose selection can leave that subtree (self.free > 0) no template is applied or called.
+            sel = self.expr(scope, "ns", d=self.r.choice([0, 1])) if self.r.random() < 0.6 else self.down_ns(scope)
+            srt = self.sorts()
+            leaves = not self.stays_below(sel)
+            self.free = getattr(self, "free", 0) + (1 if leaves else 0)
+            try:
+                b = self.body(scope, d - 1, allow_attr=False)
+            finally:
+                self.free -= 1 if leaves else 0
+            return {"i": "for-each", "sel": sel, "sorts": srt, "body": b}
+        if 0.7 <= r < 0.85 and getattr(self, "free", 0) > 0:
+            return {"i": "value-of", "sel": self.expr(scope, "any")}
         if r < 0.8:
             has = self.r.random() < 0.6
             params = []
